@@ -8,4 +8,3 @@ import XzVerif.Props.C16
 #print axioms Props.C16.C16_lazy_reader_rejects_at_offending_chunk
 #print axioms Props.C16.C16_source_chunk_automaton
 #print axioms Props.C16.C16_source_chunk_header_fields
-#print axioms Props.C16.C16_source_translation_complete
